@@ -35,7 +35,7 @@ def run(ctx):
     ctx.extra["cipher_selftest"] = st
     # 3. layouts
     out, base = "eexec.ndjson", "eexec.base.json"
-    cfg = ("CONSTANTS\n" + pscommon.PS_CONSTS +
+    cfg = ("CONSTANTS\n" + pscommon.ps_consts(ctx) +
            '  Tier = "%s"\n  OutFile = "%s"\n  BaseFile = "%s"\n  BaseHeap <- FreshHeap\n'
            "INIT Init\nNEXT Next\nINVARIANT Emit\nINVARIANT Inv\nPROPERTY DictStackRestored\nCHECK_DEADLOCK FALSE\n"
            % (ctx.tier, out, base))
